@@ -392,7 +392,8 @@ func execPair(t *testing.T, w *W) *hx.Outcome {
 	o.Sample = map[string]any{"kind": "pair", "A": w.A, "B": w.Src, "B_alone": alone.String(), "B_after_A": after.String()}
 	o.Fault("program_A_left_state_behind", 1)
 	if alone.String() != alone2.String() {
-		o.Discarded = true
+		// program B is generated (no clock, no pid, no randomness): two fresh processes must agree on it
+		o.Violate("C20/nondeterministic-across-processes", fmt.Sprintf("the same generated program gave two results in two fresh processes: %s vs %s; program: %s", alone, alone2, w.Src))
 		return o
 	}
 	if strings.Contains(w.Src, "basics_fn") && (alone.Ctl != "" || alone.Throws != "" || !strings.Contains(alone.Out, "idx=") ||
@@ -406,6 +407,7 @@ func execPair(t *testing.T, w *W) *hx.Outcome {
 		again, err := runChild(w.A, w.Src)
 		if err != nil || again.String() != after.String() {
 			o.Discarded = true
+			o.Probe("pair_leak_not_reproduced_in_second_process", 1)
 			return o
 		}
 		// name the first probe line that differs
@@ -572,6 +574,7 @@ func execCorpus(t *testing.T, w *W) *hx.Outcome {
 	if ref.String() != again.String() {
 		// not a deterministic program in the first place (clock, pid, …): not a C20 subject
 		o.Discarded = true
+		o.Probe("corpus_program_not_deterministic_by_itself", 1)
 		return o
 	}
 	o.Probe("corpus_files_run_as_subprocess", 1)
